@@ -224,6 +224,7 @@ impl<'a> Sim<'a> {
         self.ctx.ileave(0, rec.modes.len() as u64, match rec.op { SOp::RunLoop => 1, SOp::Update => 2, SOp::Withdraw { .. } => 3, SOp::WithdrawLiq { .. } => 4 });
         self.sh.set_modes(&rec.modes);
         alator::verif::set_positions_seed(Some(rec.perm));
+        self.ctx.bump("f9_positions_permutations_installed");
         let r = catch(|| self.exec_inner(rec));
         alator::verif::set_positions_seed(None);
         if let Err(p) = r {
